@@ -1,14 +1,14 @@
 CONSTANTS
   Kinds = {"run", "stage", "subs", "suspend", "lazy_stage", "monitor_during", "fly_during"}
-  MaxOps = 6
-  PMsgs = 3
+  MaxOps = 5
+  PMsgs = 2
   Thrown = {"Err", "Stop", "Abort"}
   PRaise = {"ErrI"}
   CatchThrow = TRUE
   MisbehaveClose = FALSE
   AsCoded = TRUE
   Forests <- FShared
-  DevLists <- Lists4x2
+  DevLists <- ListsCurated
   Styles = {"self", "status", "tree"}
   PosKinds = {"locate"}
   Positions = {0}
